@@ -314,7 +314,9 @@ MANIFEST_TEXT = {
             'note': 'literal reading of the statement: own ERROR, own requester CANCEL, both directions completed terminate emission'},
     'C10': {'text': 'exploration: ' + _EXPL + '; oracle at drained quiescence: every stream still registered is a leak if all interactions '
                     'finished, or - when some never finish - if the frames that endpoint itself queued and received show that stream '
-                    'terminated; reassembly cache empty; reduced id space makes ids be reused and the re-user must be served.',
+                    'terminated; reassembly cache empty; reduced id space makes ids be reused and the re-user must be served. Also over '
+                    'the cancel-moment sweep (cancel() at every loop iteration of an interaction) and a RawPeer that re-uses an id in the '
+                    'same write as the CANCEL that ended its stream.',
             'note': 'private observations _stream_control._streams and _frame_fragment_cache._frames_by_stream_id (as the suite)'},
     'C13': {'text': 'exploration: ' + _EXPL + ' with the id space reduced to 2^k-1 (7..63) or the cursor placed just below 2^31 so '
                     'allocation wraps while ids are live. Oracle: reference allocator over must-live / maybe-live sets.',
